@@ -11,6 +11,7 @@ func FindScenario(name string) *explore.Scenario {
 	all = append(all, c04Scenarios()...)
 	all = append(all, c17Scenarios()...)
 	all = append(all, c16Scenarios()...)
+	all = append(all, c15Scenarios()...)
 	for _, g := range c07Groups() {
 		if g.Name == name {
 			return c07Scenario(g)
